@@ -56,6 +56,18 @@ pub fn gen_ell(rng: &mut Rng) -> Case {
         return Case::new("ell").u("depth", depth as u64).u("dd", dd as u64).f("lon", c.0).f("lat", c.1).f("a", a).f("b", b2).f("pa", pa2).u("s", rng.next() >> 1).s("cls", "singular-covariance@cell-centre");
       } }
     }
+    // thin ellipses centred on (or within 1e-12..1e-7 rad of) a pole whose major axis lies along a diagonal meridian pi/4 + k.pi/2 of a polar
+    // base cell (the corner cells of the base cell have their centres on that meridian at every depth: a chain of cell centres exactly on the
+    // major axis, where a quadratic-form point-in-ellipse test cancels); large ellipses at moderate depths
+    if rng.below(40) == 0 {
+      let d2 = 5 + rng.below(5) as u8; let a2 = rng.range(0.3, 1.5);
+      let south = rng.coin(); let off = if rng.coin() { 0.0 } else { rng.log_uniform(1e-12, 1e-7) };
+      let lat2 = if south { -PI / 2.0 + off } else { PI / 2.0 - off };
+      let lon2 = if rng.coin() { 0.0 } else { rng.f() * TWO_PI };
+      let pa2 = (PI / 4.0 + (rng.below(4) as f64) * PI / 2.0 - lon2 + if rng.below(3) == 0 { (rng.f() - 0.5) * 1e-6 } else { 0.0 }).rem_euclid(PI);
+      let b2 = a2 * rng.log_uniform(1e-12, 1e-6);
+      return Case::new("ell").u("depth", d2 as u64).u("dd", if rng.below(4) == 0 { 2 } else { 0 }).f("lon", lon2).f("lat", lat2).f("a", a2).f("b", b2).f("pa", pa2).u("s", rng.next() >> 1).s("cls", "thin-on-a-pole-along-a-diagonal-meridian");
+    }
     // semi-minor axis a hair above one of the bounding-cone radii of the descent (the crate's own per-depth cell radius bounds for this
     // ellipse, public helper): "cell fully inside" is decided on an ellipse shrunk by that radius, whose minor axis is then ~0
     if rng.below(8) == 0 && depth + dd > 0 {
